@@ -553,6 +553,7 @@ def gen_eps(rng, mode: str):
 # ------------------------------------------------------------------------------------------ defects
 LISTED = ["unknown-module", "weight", "area", "soft-no-area", "hard-area", "hard-no-rects", "hard-overlap",
           "unknown-attr", "bad-name", "one-pin", "rect-size"]
+MUST_LOAD = ["sliver-below-tol"]     # injected variations that are NOT defects: the document must still load
 OTHER = ["flag-type", "fixed-hard", "center-form", "aspect-form", "hard-center", "hard-aspect", "flip-soft",
          "hard-region", "rect-form", "net-form", "root-form", "terminal-area", "rect-negative"]
 
@@ -575,58 +576,96 @@ def _rect_list(v):
     return [r] if not isinstance(r[0], list) else r
 
 
-def area_eps_in_force(doc, eps):
-    """the area tolerance `Rectangle.area_epsilon()` in force while `doc` is loaded: the explicit one, or the one the
-    netlist proposes (sqrt(1e-12 · smallest dimension)) when none is defined; None when `doc` does not load."""
-    if eps is not None:
-        return float(eps[1])
+def doc_default_eps(doc):
+    """the tolerance a well-formed netlist DOCUMENT proposes when none is defined, computed on the spec side from the
+    document alone (never read from the implementation): distance ε = 1e-12 × the smallest of all rectangle sides and of
+    sqrt(area) of the modules with positive area (soft: Σ region areas; hard: Σ rectangle areas), area ε = sqrt(distance ε).
+    Returns (εd, εA) as floats, or None when there is no dimension at all (`math.inf` in the implementation)."""
+    orc = oracle(doc)
+    dims = []
+    for m in orc["modules"]:
+        for r in m["rects"]:
+            dims += [float(r[2]), float(r[3])]
+    for m in orc["modules"]:
+        if m["area"] > 0:
+            dims.append(math.sqrt(float(m["area"])))
+    if not dims:
+        return None
+    d = min(dims) * 1e-12
+    return d, math.sqrt(d)
+
+
+def installed_eps(doc):
+    """the tolerance the implementation installs when `doc` is loaded in a process without one: (εd, εA), or None when
+    the document does not load."""
     Rectangle.undefine_epsilon()
     try:
         Netlist(copy.deepcopy(doc))
-        return float(Rectangle.area_epsilon())
-    except Exception:
+        return float(Rectangle.distance_epsilon()), float(Rectangle.area_epsilon())
+    except AssertionError:
         return None
     finally:
         Rectangle.undefine_epsilon()
 
 
-def sliver_overlap(rng, d, m, mode: str, eps):
-    """two LARGE squares (side 10^3 … 10^6) of module `m` that overlap in a thin sliver: an area tiny relative to the
-    rectangles (1e-9 … 1e-4 of them) but at least 4× the area tolerance in force (checked exactly, with Fractions, on
-    the numbers actually written to the document).  Returns the document or None."""
+def _float_overlap(a, b):
+    """`Rectangle.area_overlap` of two [cx, cy, w, h] lists in double arithmetic (reference formula, spec side)."""
+    ax0, ax1, ay0, ay1 = a[0] - a[2] / 2, a[0] + a[2] / 2, a[1] - a[3] / 2, a[1] + a[3] / 2
+    bx0, bx1, by0, by1 = b[0] - b[2] / 2, b[0] + b[2] / 2, b[1] - b[3] / 2, b[1] + b[3] / 2
+    dx, dy = min(ax1, bx1) - max(ax0, bx0), min(ay1, by1) - max(ay0, by0)
+    return dx * dy if dx > 0 and dy > 0 else 0.0
+
+
+SLIVER_REJECT = [2, 1000]           # overlap / area tolerance: must be rejected
+SLIVER_ACCEPT = [0.5, 0.25]         # must load
+
+
+def sliver_overlap(rng, d, m, mode: str, eps, factors):
+    """two squares of module `m` (side 1 … 10^6) overlapping in a thin sliver whose area is `factor` × the area tolerance
+    IN FORCE, the tolerance being the explicit one or — tolerance undefined — the one the DOCUMENT proposes, computed on
+    the spec side (`doc_default_eps`).  The overlap is checked exactly (Fractions on the numbers written) and in double
+    arithmetic; both must be on the same side of the tolerance by a factor 1.5, else the case is dropped."""
     mods = d["Modules"]
-    side = float(rng.choice([1024, 65536, 1048576])) if mode == "Q" else float(rng.choice([1e3, 1e4, 1e5, 1e6, 2.5e3, 3e5]))
+    if mode == "Q":
+        side = float(rng.choice([1, 2, 16, 1024, 65536, 1048576]))
+    else:
+        side = float(rng.choice([1.0, 2.0, 10.0, 37.5, 1e3, 1e4, 1e5, 1e6, 2.5e3, 3e5]))
     x0, y0 = rng.randint(0, 3) * side, rng.randint(0, 3) * side
     a = [x0 + side / 2, y0 + side / 2, side, side]
-
-    def with_delta(delta):
-        b = [x0 + side - delta + side / 2, y0 + side / 2, side, side]
-        rl = [list(a), b]
-        if rng.random() < 0.5:
-            rl.reverse()
-        return b, rl
-    _, rl0 = with_delta(0.0)
-    mods[m]["rectangles"] = rl0
+    mods[m]["rectangles"] = [list(a), [x0 + side + side / 2, y0 + side / 2, side, side]]
     mods[m].pop("flip", None)
-    tol = area_eps_in_force(d, eps)          # does not depend on the sliver (the dimensions stay the same)
-    if tol is None:
-        return None
-    factor = rng.choice([4, 16, 256, 4096])
-    if mode == "Q":
-        delta = 2.0 ** rng.choice([-8, -4, -1, 0, 2])
-        while delta * side < factor * tol:
-            delta *= 2
+    if eps is not None:
+        tol = float(eps[1])
     else:
-        delta = max(factor * max(tol, 1e-300) / side, side * 2.0 ** -30) * rng.choice([1.0, 1.5, 3.0])
-    if delta > side * 1e-4:
+        de = doc_default_eps(d)              # the sliver does not change any dimension
+        if de is None:
+            return None
+        tol = de[1]
+    factor = rng.choice(factors)
+    if tol == 0:
+        if factor < 1:
+            return None
+        delta = side * 2.0 ** -20
+    else:
+        delta = factor * tol / side
+        if mode == "Q":                      # keep the numbers dyadic: round δ to a power of two on the safe side
+            e = math.floor(math.log2(delta)) if factor < 1 else math.ceil(math.log2(delta))
+            delta = 2.0 ** e
+    if not (0 < delta < side / 4):
         return None
-    b, rl = with_delta(delta)
-    # exact overlap of the rectangles as written
+    b = [x0 + side - delta + side / 2, y0 + side / 2, side, side]
     fa, fb = [Fraction(v) for v in a], [Fraction(v) for v in b]
     dx = (fa[0] + fa[2] / 2) - (fb[0] - fb[2] / 2)
-    ov = dx * Fraction(side)
-    if not (dx > 0 and ov >= 4 * Fraction(tol) and ov > 0):
-        return None
+    ov_exact, ov_float = dx * Fraction(side), _float_overlap(a, b)
+    if factor >= 1:
+        if not (dx > 0 and ov_exact > 0 and ov_exact >= 1.5 * Fraction(tol) and ov_float >= 1.5 * tol and ov_float > 0):
+            return None
+    else:
+        if not (dx > 0 and ov_exact * 3 <= 2 * Fraction(tol) and ov_float * 1.5 <= tol):
+            return None
+    rl = [list(a), b]
+    if rng.random() < 0.5:
+        rl.reverse()
     mods[m]["rectangles"] = rl
     return d
 
@@ -714,7 +753,7 @@ def inject(rng, doc: dict, mode: str, cls: str, eps="unknown"):
         rl = copy.deepcopy(_rect_list(mods[m]))
         how = rng.choice(["shifted-copy", "branch-overlap", "dup-branch", "dup-any"] + (["sliver-large"] * 3 if eps != "unknown" else []))
         if how == "sliver-large":
-            return sliver_overlap(rng, d, m, mode, eps)
+            return sliver_overlap(rng, d, m, mode, eps, SLIVER_REJECT)
         if how == "shifted-copy":
             r = rng.choice(rl)
             x, y, w, h = (float(v) for v in r[:4])
@@ -732,6 +771,11 @@ def inject(rng, doc: dict, mode: str, cls: str, eps="unknown"):
                   overlapping_branches(rng, u, X0, Y0, rng.randint(3, 6), rng.randint(2, 6), how)]
         mods[m]["rectangles"] = rl
         return d
+    if cls == "sliver-below-tol":    # NOT a defect: an overlap of ½ or ¼ of the area tolerance in force must load
+        m = _pick(rng, d, _is_hardnt)
+        if m is None or eps == "unknown":
+            return None
+        return sliver_overlap(rng, d, m, mode, eps, SLIVER_ACCEPT)
     if cls == "unknown-attr":
         if names and rng.random() < 0.8:
             m = rng.choice(names)
